@@ -2,6 +2,7 @@
 //! files compared against the Lean model by /verif/bin/check.
 mod c18;
 mod c25;
+mod c29;
 mod gens;
 mod rng;
 mod sink;
@@ -15,13 +16,14 @@ use std::path::PathBuf;
 /// Run one case (`op` + inputs) on the implementation.
 pub fn exec(op: &str, inputs: &[String]) -> Option<Reply> {
     // first module that recognises the op answers
-    None.or_else(|| c18::exec(op, inputs)).or_else(|| c25::exec(op, inputs))
+    None.or_else(|| c18::exec(op, inputs)).or_else(|| c25::exec(op, inputs)).or_else(|| c29::exec(op, inputs))
 }
 
 fn generate(prop: &str, sink: &mut sink::Sink, rng: &mut rng::Rng, n: u64) -> bool {
     match prop {
         "C18" => c18::generate(sink, rng, n),
         "C25" => c25::generate(sink, rng, n),
+        "C29int" => c29::generate(sink, rng, n),
         _ => return false,
     }
     true
